@@ -126,7 +126,7 @@ def run(job, seed):
     O = MENU[tier][job['o']]
     ovr = OVR[tier]
     for renamed, two in ((True, False), (True, True), (False, False),
-                         (True, 'sibling')):
+                         (True, 'sibling'), (True, 'sibling-first')):
         new1 = 'svc:new'
         old = 'svc:old' if renamed else new1
         new2 = 'svc:new2'
@@ -191,6 +191,10 @@ def run(job, seed):
                     # the predecessor's own name stays registered (same-name
                     # deprecation) next to the renamed policy
                     defs.append(P.RuleDefault(old, N2, deprecated_rule=dep))
+                elif two == 'sibling-first':
+                    # ... registered BEFORE the renamed policy, and as a
+                    # plain policy of its own
+                    defs.insert(0, P.RuleDefault(old, N2))
                 elif two:
                     defs.append(P.RuleDefault(new2, N2, deprecated_rule=dep))
                 enf.register_defaults(defs)
